@@ -694,6 +694,8 @@ CONFIG['kaczmarz_cbinner'] = _variant('kaczmarz', **{CB_IN: True, CB_OUT: False}
 CONFIG['adupdates_cbinner'] = _variant('adupdates', **{CB_IN: True, CB_OUT: False})
 # mlem must stay the one-line wrapper around osmlem
 MLEM_BODY = 'osmlem([op], x, [data], niter=niter, callback=callback, **kwargs)'
+MLEM_PRE = ["sensitivities = kwargs.pop('sensitivities', None)",
+            "if sensitivities is not None:\n    if sensitivities in op.domain:\n        sensitivities = [sensitivities]\n    kwargs['sensitivities'] = sensitivities"]
 
 
 def pre_digest(fn):
@@ -766,7 +768,9 @@ def translate(repo=None):
     # mlem wrapper
     fn = find_fn(repo, CONFIG['osmlem'], 'mlem')
     body = [s for s in fn.body if not (isinstance(s, ast.Expr) and isinstance(s.value, ast.Constant))]
-    if len(body) != 1 or ast.unparse(body[0]) != MLEM_BODY:
+    # the one-line wrapper, optionally preceded by the wrapping of a single sensitivities element into a list
+    text = [ast.unparse(b) for b in body]
+    if not (text == [MLEM_BODY] or text == MLEM_PRE + [MLEM_BODY]):
         raise C.TranslateError('mlem is no longer the wrapper %s' % MLEM_BODY)
     out.append('(* mlem(op, x, data, niter, callback, **kwargs) = %s *)' % MLEM_BODY)
     out.append('Definition mlem_is_osmlem_with_one_operator : bool := true.')
